@@ -278,3 +278,23 @@ Definition perform_kde (data : list (T * T)) (xmin xmax bw : T) : res (list (T *
   rbind (kde_table sorted npseudo xmin dx bw wsum 0 (Z.to_nat kde_points)) (fun t =>
   if strictly_increasing t then Ok t else Exit).
 End Dist.
+
+(** ** Inv_Erf (Special_Functions.cpp:503-525), the function behind Quantile_Gauss: three guards around
+    Find_Root(erf(x) - p, -10, 10, 1e-4).  Find_Root (Ridder's method, property C02) is a parameter: it receives the
+    function, the bracket and the accuracy, and may terminate the process through its own guards.
+       if(fabs(p - 1.0) < 1e-16) return 10.0;  else if(fabs(p + 1.0) < 1e-16) return -10.0;
+       else if(fabs(p) >= 1.0) exit;           else return Find_Root([p](x){ return erf(x) - p; }, -10.0, 10.0, 1.0e-4); *)
+Section InvErf.
+Context {T : Type} (Ops : NumOps T).
+Variable find_root : (T -> T) -> T -> T -> T -> res T.
+
+Definition lit_1em16 : T := ndec Ops 1 10000000000000000.
+Definition inv_erf_fn (p : T) : res T :=
+  if nltb Ops (nabs Ops (nsub Ops p (n1 Ops))) lit_1em16 then Ok (nofZ Ops 10)
+  else if nltb Ops (nabs Ops (nadd Ops p (n1 Ops))) lit_1em16 then Ok (nneg Ops (nofZ Ops 10))
+  else if ngeb Ops (nabs Ops p) (n1 Ops) then Exit
+  else find_root (fun x => nsub Ops (nerf Ops x) p) (nneg Ops (nofZ Ops 10)) (nofZ Ops 10) (ndec Ops 1 10000).
+
+(* Quantile_Gauss with the library's own Inv_Erf *)
+Definition quantile_gauss_lib (p mu sigma : T) : res T := quantile_gauss Ops inv_erf_fn p mu sigma.
+End InvErf.
